@@ -42,6 +42,28 @@ def run_t2(prop, tier, seed, replay=None):
     return res
 
 
+def run_rt(prop, tier, seed, replay=None):
+    """run-time evaluation of the sidecar contracts around the real functions (bounded; the replay vehicle of T1)"""
+    os.makedirs(os.path.join(C.CACHE_DIR, "numba"), exist_ok=True)
+    fd, outp = tempfile.mkstemp(prefix="rt-%s-" % prop, suffix=".json", dir=C.CACHE_DIR)
+    os.close(fd)
+    cmd = [C.VENV_PY, "-m", "pyvc.rt", prop, "--seed", str(seed), "--count", "300" if tier == "quick" else "5000",
+           "--out", outp]
+    if replay:
+        cmd += ["--replay", replay]
+    p = subprocess.run(cmd, cwd=C.VERIF, env=C.child_env(), stdout=subprocess.PIPE, stderr=subprocess.STDOUT, text=True)
+    try:
+        with open(outp) as f:
+            res = json.load(f)
+    except Exception:
+        res = {"crashes": ["rt child produced no result (rc=%s): %s" % (p.returncode, p.stdout[-2000:])], "fails": [],
+               "evaluations": 0, "functions": {}}
+    finally:
+        if os.path.exists(outp):
+            os.unlink(outp)
+    return res
+
+
 def run_t1(prop, tier, seed):
     try:
         from pyvc import driver
@@ -69,6 +91,16 @@ def main():
         if rp.get("tier") == "T1":
             from pyvc import driver
             return driver.replay(prop, rp)
+        if rp.get("tier") == "RT":
+            rt = run_rt(prop, tier, seed, replay=a.replay)
+            if rt.get("crashes"):
+                print("replay crashed:", rt["crashes"])
+                return C.EXIT_CRASH
+            for fl in rt["fails"]:
+                print("REPLAY-FAILS property=%s clause=%s site=%s" % (prop, fl.get("clause"), fl.get("site")))
+            if not rt["fails"]:
+                print("replay passes on the current tree")
+            return C.EXIT_VIOLATION if rt["fails"] else C.EXIT_HELD
         t2 = run_t2(prop, tier, seed, replay=a.replay)
         if t2 is None or t2.get("crashes"):
             print("replay crashed:", (t2 or {}).get("crashes"))
@@ -83,11 +115,25 @@ def main():
     t1 = run_t1(prop, tier, seed) if a.only in (None, "t1") else None
     t2 = run_t2(prop, tier, seed) if a.only in (None, "t2") else None
 
+    rt = run_rt(prop, tier, seed) if (t1 and a.only in (None, "t1")) else None
     crashes = []
     failures = []       # uniform: {clause, site, tier, detail, ...}
+    if rt:
+        crashes += rt.get("crashes", [])
+        for fl in rt.get("fails", []):
+            fl["tier"] = "RT"
+            fl["has_input"] = True
+            failures.append(fl)
     if t1:
         crashes += t1.get("crashes", [])
-        failures += t1.get("failures", [])
+        for fl in t1.get("failures", []):
+            # a refuted obligation whose function also fails its run-time contract on a concrete input: that input
+            # is the replayable counterexample
+            hit = [r for r in (rt or {}).get("fails", []) if r.get("site", "").split(" [")[0] == fl.get("site")]
+            if hit:
+                fl["has_input"] = True
+                fl["failing_input"] = hit[0].get("detail")
+            failures.append(fl)
     if t2:
         crashes += t2.get("crashes", [])
         for fl in t2.get("fails", []):
@@ -141,6 +187,10 @@ def main():
             "lemmas": t1.get("lemmas", []),
             "vacuity_guards": t1.get("guards", {}),
         })
+        if rt:
+            cov["runtime_contract_checks"] = {"evaluations": rt.get("evaluations", 0), "functions": rt.get("functions", {}),
+                                              "note": "same sidecar contracts evaluated around the real functions on "
+                                                      "seeded random inputs (bounded, not counted as proved)"}
         if "samples" not in cov or not cov["samples"]:
             cov["samples"] = [r["name"] for r in t1.get("results", [])[:3]]
     cov["explanation"] = (
